@@ -63,6 +63,11 @@ CHECKS = {
    text="Every program accepted from the corpus of the current tree, the std modules and the harness generators is verified function by function as compiled, after tree-shaking, and after each merge into an environment holding other programs: jumps in range, no stack underflow, one stack height per pc, exit height exactly 1 (also at tail calls), locals reads/resets within what is defined on every path, all table indices and type-table ids in range. On a sample the program is executed with quantum 1 and the observed (function, pc, height, locals) at every boundary must lie in the verifier's abstract state (4.6 M states in the quick tier).",
    design="§3 C07",
    note="The invariant needs a small dataflow pass to evaluate 'on every path'; it is an oracle over observed artefacts and says nothing about functions the workload never makes the compiler emit."),
+ "C09": dict(
+   technique="runtime monitoring: value-enumeration oracle (exact finite membership under source-level type semantics) around the real is_compatible / types_overlap / intersect_types / compute_complement on front-end-built type ids",
+   text="Alias programs over ints, bins, refs, named/unnamed tuples, labels, partials, unions, tuple-guarded recursion and function types are compiled by the real front end; for every ordered pair: assignable => every enumerated member of A is a member of B; a shared enumerated value => overlap reported; members in/not in B must be in the intersection / complement; reflexivity; transitivity on triples; and the compiled graph must admit exactly the source type's enumerated values. Four non-recursive defects were repaired; the recursive-type defects are known findings.",
+   design="§3 C09",
+   note="No counter-example among values of depth <= 3/4 over a small atom pool; process types excluded; narrowing results' outermost cycles are read against the declared type (the compiler's own convention)."),
 }
 
 NOT_BUILT = "check not built yet in this round (work in progress; see DESIGN.md §6 build order)"
